@@ -38,7 +38,7 @@ def fb(x):
 _T0 = time.time()
 
 
-def run_env(fn, cases, hashseed='0', cwd=None, par=2 * vlib.NPROC):
+def run_env(fn, cases, hashseed='0', cwd=None, par=vlib.NPROC):
     """all cases of one environment through ONE interpreter (detfn.fanout forks
     `par` children, which fork again per case)"""
     if not cases:
@@ -352,25 +352,30 @@ def _small_targets(progs, configs):
     return out
 
 
-def _references(ctx, name, ts):
-    """pristine interpreter, hash seed 0 -> {index: observation} or None"""
-    raws = run_env('pristine', [{'t': pub(t)} for t in ts], hashseed='0')
+def _references(ctx, name, ts, only=None):
+    """pristine interpreter, hash seed 0 -> {index: observation} or None
+    (only: the target indices that are needed; default all)"""
+    sel = sorted(only) if only is not None else list(range(len(ts)))
+    raws = run_env('pristine', [{'t': pub(ts[ti])} for ti in sel], hashseed='0')
     refs = {}
-    for ti, (t, r) in enumerate(zip(ts, raws)):
+    for ti, r in zip(sel, raws):
+        t = ts[ti]
         if not isinstance(r, dict) or r.get('harness') or 'verdict' not in r:
             ctx.broken.append(f'{name}: reference run failed for {t["tag"]}: {str(r)[:300]}')
             return None
         refs[ti] = r
         ctx.bump(f'{name}-ref-verdict:' + ('ok' if r['verdict'].get('ok') else r['verdict'].get('kind', '?')))
-    ctx.count(f'{name}-reference', len(ts), set(r['digest'] for r in refs.values()))
+    ctx.count(f'{name}-reference', len(sel), set(r['digest'] for r in refs.values()))
     return refs
 
 
-def variants_suite(ctx, tier):
+def variants_suite(ctx, tier, rseed=0):
     """every program of a family of same-name/different-definition programs is
     compiled AND assembled (bytes() and str()) before every other one, in both
     orders, at the same and at another configuration; whole families as chains;
-    two Compiler instances alive"""
+    two Compiler instances alive.  quick: per family ONE ordered pair (rotating
+    with VERIF_SEED) at one same configuration, one other configuration and one
+    two-compilers interleaving, and the chain of every third family."""
     quick = tier != 'thorough'
     fams = c20gen.variant_families()
     progs, where = [], {}
@@ -383,54 +388,64 @@ def variants_suite(ctx, tier):
 
     def tix(fi, vi, ci):
         return where[(fi, vi)] * NC + ci
-    refs = _references(ctx, 'variants', ts)
+
+    # ---- plan (target indices only), then the references that the plan needs
+    plan = []           # (suite, fn, under-test index or list, builder(refs) -> case)
+    pi = 0
+    npairs_all = 0
+    pairs_done = []
+    for fi, f in enumerate(fams):
+        nv = len(f['variants'])
+        pairs = [(a, b) for a in range(nv) for b in range(nv) if a != b]
+        npairs_all += len(pairs)
+        if quick and pairs:
+            pairs = [pairs[(rseed + fi) % len(pairs)]]
+        for (a, b) in pairs:
+            # b = history, a = program under test
+            pairs_done.append((fi, a, b))
+            same_cis = [(pi + rseed) % NC] if quick else list(range(NC))
+            for ci in same_cis:
+                plan.append(('variant-history', 'sequence', tix(fi, a, ci), tix(fi, b, ci), (pi + ci) % 3 == 0))
+            ci = pi % NC
+            cj = (ci + 1 + (pi // NC) % (NC - 1)) % NC
+            plan.append(('variant-history-other-config', 'sequence', tix(fi, a, ci), tix(fi, b, cj), pi % 2 == 0))
+            for order in ((pi % 3,) if quick else (0, 1, 2)):
+                ck = (pi // 3 + order) % NC
+                plan.append(('variant-two-compilers', 'two_alive', tix(fi, a, ck), tix(fi, b, ck), order))
+            pi += 1
+        # the whole family as one chain, up and down, every step checked
+        for ci in range(NC):
+            if quick and ((fi + rseed) % 3 != 0 or ci != (fi // 3 + rseed) % NC):
+                continue
+            chain = list(range(nv)) + list(range(nv - 2, -1, -1))
+            plan.append(('variant-chain', 'sequence', [tix(fi, v, ci) for v in chain], None, None))
+    need = set()
+    for (suite, fn, ti, hi, _x) in plan:
+        need.update(ti if isinstance(ti, list) else [ti])
+    if not quick:
+        need = None
+    refs = _references(ctx, 'variants', ts, need)
     if refs is None:
         return
 
     def ref_env(t):
         return {'fn': 'detfn.pristine', 'hashseed': '0', 'cwd': vlib.REPO, 'case': {'t': pub(t)}}
     S = Suite(ctx, refs, ref_env)
-    batch, meta = [], []
-    pi = 0
     ndiff = 0
-    for fi, f in enumerate(fams):
-        nv = len(f['variants'])
-        for a in range(nv):
-            for b in range(nv):
-                if a == b:
-                    continue
-                # b = history, a = program under test
-                ndiff += sum(1 for ci in range(NC) if refs[tix(fi, a, ci)]['digest'] != refs[tix(fi, b, ci)]['digest'])
-                for ci in range(NC):
-                    if quick and ci % 2 != pi % 2:
-                        continue
-                    ti = tix(fi, a, ci)
-                    case = {'steps': [{'t': pub(ts[tix(fi, b, ci)]), 'run_pre': (pi + ci) % 3 == 0},
-                                      {'t': pub(ts[ti]), 'ref': refs[ti]['digest']}]}
-                    batch.append({'fn': 'sequence', 'case': case})
-                    meta.append(('variant-history', 'sequence', ti, case))
-                ci = pi % NC
-                cj = (ci + 1 + (pi // NC) % (NC - 1)) % NC
-                ti = tix(fi, a, ci)
-                case = {'steps': [{'t': pub(ts[tix(fi, b, cj)]), 'run_pre': pi % 2 == 0},
-                                  {'t': pub(ts[ti]), 'ref': refs[ti]['digest']}]}
-                batch.append({'fn': 'sequence', 'case': case})
-                meta.append(('variant-history-other-config', 'sequence', ti, case))
-                for order in ((pi % 3,) if quick else (0, 1, 2)):
-                    ck = (pi // 3 + order) % NC
-                    ti = tix(fi, a, ck)
-                    case = {'a': pub(ts[tix(fi, b, ck)]), 'b': pub(ts[ti]), 'order': order, 'ref': refs[ti]['digest']}
-                    batch.append({'fn': 'two_alive', 'case': case})
-                    meta.append(('variant-two-compilers', 'two_alive', ti, case))
-                pi += 1
-        # the whole family as one chain, up and down, every step checked
-        for ci in range(NC):
-            if quick and ci % 2 != fi % 2:
-                continue
-            chain = list(range(nv)) + list(range(nv - 2, -1, -1))
-            case = {'steps': [{'t': pub(ts[tix(fi, v, ci)]), 'ref': refs[tix(fi, v, ci)]['digest']} for v in chain]}
-            batch.append({'fn': 'sequence', 'case': case})
-            meta.append(('variant-chain', 'sequence', [tix(fi, v, ci) for v in chain], case))
+    for (fi, a, b) in pairs_done:
+        ndiff += sum(1 for ci in range(NC) if tix(fi, a, ci) in refs and tix(fi, b, ci) in refs
+                     and refs[tix(fi, a, ci)]['digest'] != refs[tix(fi, b, ci)]['digest'])
+    batch, meta = [], []
+    for (suite, fn, ti, hi, x) in plan:
+        if suite == 'variant-chain':
+            case = {'steps': [{'t': pub(ts[tj]), 'ref': refs[tj]['digest']} for tj in ti]}
+        elif fn == 'sequence':
+            case = {'steps': [{'t': pub(ts[hi]), 'run_pre': x},
+                              {'t': pub(ts[ti]), 'ref': refs[ti]['digest']}]}
+        else:
+            case = {'a': pub(ts[hi]), 'b': pub(ts[ti]), 'order': x, 'ref': refs[ti]['digest']}
+        batch.append({'fn': fn, 'case': case})
+        meta.append((suite, fn, ti, case))
     outs = run_env('isolated', batch, hashseed='0')
     n = {}
     for (suite, fn, ti, case), out in zip(meta, outs):
@@ -457,6 +472,7 @@ def variants_suite(ctx, tier):
     ctx.bump('variant-families', len(fams))
     ctx.bump('variant-programs', len(progs))
     ctx.bump('variant-ordered-pairs', pi)
+    ctx.bump('variant-ordered-pairs-of-all-families', npairs_all)
     ctx.bump('variant-ordered-pairs-x-config-with-different-reference', ndiff)
     ctx.sample({'suite': 'variant-history', 'family': fams[0]['tag'], 'history_program': fams[0]['variants'][0],
                 'program_under_test': fams[0]['variants'][1]})
@@ -465,19 +481,23 @@ def variants_suite(ctx, tier):
                     'field list x global / SUB-local / array element / parameter use x 3 inner TYPEs of different '
                     'sizes; TYPE field lists, CONST values and types, SUB and FUNCTION signatures, one name as '
                     'variable / array / FUNCTION / SUB / label / TYPE / CONST, array bounds, DEFtype ranges, labels, '
-                    f'line numbers, DATA, literal order, STATIC). All {pi} ordered pairs (history, program) of a family: '
+                    f'line numbers, DATA, literal order, STATIC). {pi} of the {npairs_all} ordered pairs (history, program) '
+                    '(thorough: all; quick: one pair per family, rotating with VERIF_SEED): '
                     'fresh process compiles and assembles (bytes() and str(), every third also run) the history '
-                    'program, then the program under test, at the same configuration (all 6 in thorough, 3 '
-                    'alternating in quick) and once at another configuration; two Compiler instances alive in one '
-                    '(quick) / three (thorough) interleavings; each family as one chain v0..vn..v0 with every step '
-                    'checked; all against the pristine hash-seed-0 reference of the program under test')
+                    'program, then the program under test, at the same configuration (all 6 in thorough, 1 '
+                    'rotating in quick) and once at another configuration; two Compiler instances alive in one '
+                    '(quick) / three (thorough) interleavings; each family (quick: every third family, one '
+                    'configuration) as one chain v0..vn..v0 with every step checked; all against the pristine hash-seed-0 reference of the program under test')
 
 
-def deadcode_suite(ctx, tier, rseed):
+def deadcode_suite(ctx, tier, rseed, vseed=0):
     """hash-seed sweep over programs with many string literals and a statement
     with literals directly after an unconditional transfer"""
     quick = tier != 'thorough'
     progs = c20gen.deadcode_programs(not quick)
+    nall = len(progs)
+    if quick:           # a third of the quick programs, rotating with VERIF_SEED
+        progs = [p for i, p in enumerate(progs) if i % 3 == vseed % 3]
     configs = [(2, False), (2, True)] if quick else [(2, False), (2, True), (1, False), (1, True)]
     ts = _small_targets(progs, configs)
     refs = _references(ctx, 'deadcode', ts)
@@ -487,7 +507,7 @@ def deadcode_suite(ctx, tier, rseed):
     def ref_env(t):
         return {'fn': 'detfn.pristine', 'hashseed': '0', 'cwd': vlib.REPO, 'case': {'t': pub(t)}}
     S = Suite(ctx, refs, ref_env)
-    seeds = [str(k) for k in range(1, 8)] + [str(rseed)]
+    seeds = ([str(1 + vseed % 7)] if quick else [str(k) for k in range(1, 8)]) + [str(rseed)]
     cases = [{'t': pub(t), 'ref': refs[ti]['digest']} for ti, t in enumerate(ts)]
     for s in seeds:
         ans = run_env('pristine', cases, hashseed=s)
@@ -506,7 +526,7 @@ def deadcode_suite(ctx, tier, rseed):
     ctx.bump('deadcode-programs-with-a-literal-push-removed-at-O2', gone)
     ctx.extra['deadcode_hash_seeds'] = ['0 (reference)'] + seeds
     ctx.sample({'suite': 'deadcode-hashseed', 'tag': ts[0]['tag'], 'src': ts[0]['src']})
-    ctx.rule.append(f'deadcode: {len(progs)} programs = {len(c20gen.DEAD_CONTEXTS)} contexts (top level, IF, ELSE, '
+    ctx.rule.append(f'deadcode: {len(progs)} programs (quick: a third of {nall}, rotating with VERIF_SEED) from {len(c20gen.DEAD_CONTEXTS)} contexts (top level, IF, ELSE, '
                     'single-line IF, FOR, DO, WHILE, SELECT CASE, SUB, FUNCTION, GOSUB routine) x terminators END / '
                     'SYSTEM / GOTO / RETURN (+ EXIT FOR / DO / SUB / FUNCTION) x dead statement with string literals '
                     'directly behind it (PRINT, INPUT prompt, string concatenation, two PRINTs; 2 of 4 in quick) x '
@@ -623,7 +643,10 @@ def main(tier, seed):
         """thorough: every target; quick: the targets with index = j mod m"""
         return [ti for ti in range(NT) if (not quick) or ti % m == j % m]
     for j, s in enumerate(seeds if 'seeds' not in SKIP else []):
-        sel = list(range(NT)) if j == 0 else subset(j, 3)
+        if quick:       # every target under exactly one of the four seeds (rotating with VERIF_SEED)
+            sel = [ti for ti in range(NT) if ti % len(seeds) == (j + seed) % len(seeds)]
+        else:
+            sel = list(range(NT))
         cases = [{'t': pub(targets[ti]), 'ref': refs[ti]['digest']} for ti in sel]
         ans = run_env('pristine', cases, hashseed=s)
         for ti, a in zip(sel, ans):
@@ -632,13 +655,13 @@ def main(tier, seed):
                     {'fn': 'detfn.pristine', 'hashseed': s, 'cwd': vlib.REPO, 'case': {'t': pub(t)}})
         ctx.count(f'hashseed={s}', len(sel), ())
     ctx.rule.append(f'hashseed: targets again in a pristine interpreter under PYTHONHASHSEED in {seeds} (the last one '
-                    'drawn from VERIF_SEED): the first seed on every target; the others on every target (thorough) '
-                    'or on a third of the targets each (quick); all targets once more under PYTHONHASHSEED=random '
+                    'drawn from VERIF_SEED): every seed on every target (thorough) '
+                    'or on a quarter of the targets each, so that every target meets one of them (quick); all targets once more under PYTHONHASHSEED=random '
                     'in the chain suite')
 
     log('other working directory')
     # ---- other working directory
-    sel = subset(0, 3) if 'cwd' not in SKIP else []
+    sel = subset(seed, 6) if 'cwd' not in SKIP else []
     cases = [{'t': pub(targets[ti]), 'ref': refs[ti]['digest']} for ti in sel]
     ans = run_env('pristine', cases, hashseed='0', cwd=SCRATCH)
     for ti, a in zip(sel, ans):
@@ -649,7 +672,7 @@ def main(tier, seed):
         S.judge('cwd', 'cwd', ti, t, a,
                 {'fn': 'detfn.pristine', 'hashseed': '0', 'cwd': SCRATCH, 'case': {'t': pub(t)}})
     ctx.count('cwd', len(sel), ())
-    ctx.rule.append(f'cwd: targets (all in thorough, a third in quick) in a pristine interpreter started in {SCRATCH}')
+    ctx.rule.append(f'cwd: targets (all in thorough, a sixth in quick) in a pristine interpreter started in {SCRATCH}')
 
     log('reused process: long chains (every history length), seed 0 and seed random')
     # ---- reused process: long chains (every history length), seed 0 and seed random
@@ -695,8 +718,8 @@ def main(tier, seed):
         other_level = dict(pub(t))
         other_level['level'] = (t['level'] + 1 + (ti % 2)) % 3
         other_level['debug'] = not t['debug']
-        for k, every in (((1, 1), (5, 4), (20, 16)) if quick else ((1, 1), (5, 2), (20, 8))):
-            if ti % every != 0:
+        for k, every in (((1, 2), (5, 8), (20, 32)) if quick else ((1, 1), (5, 2), (20, 8))):
+            if (ti + (seed if quick else 0)) % every != 0:
                 continue
             if k == 1:
                 hist = [other_level]
@@ -722,15 +745,15 @@ def main(tier, seed):
         for k in (1, 5, 20):
             ctx.count(f'history-k{k}', sum(1 for _, kk in hist_meta if kk == k), ())
     ctx.rule.append('history: fresh process that first compiles k other programs, then the target: k=1 (the same '
-                    'program at another level and debug setting; every target), k=5 (every 4th target in quick, 2nd in thorough), k=20 (every '
-                    f'16th / 8th); histories of k>1 always contain two of {len(bad_ts)} programs that fail (syntax errors, '
+                    'program at another level and debug setting; every target in thorough, every 2nd in quick), k=5 (every 8th target in quick, 2nd in thorough), k=20 (every '
+                    f'32nd / 8th); histories of k>1 always contain two of {len(bad_ts)} programs that fail (syntax errors, '
                     'compile errors, internal errors) and the same program at another level; every other history '
                     'program is also run')
 
     log('two compilers alive at once')
     # ---- two compilers alive at once
     cases = []
-    two_sel = subset(1, 2)
+    two_sel = subset(seed + 1, 4)
     for ti in two_sel:
         a = pub(targets[(ti * 7 + 3) % NT])
         cases.append({'a': a, 'b': pub(targets[ti]), 'order': (ti // 2) % 3, 'ref': refs[ti]['digest']})
@@ -744,11 +767,11 @@ def main(tier, seed):
                     {'fn': 'detfn.two_alive', 'hashseed': '0', 'cwd': vlib.REPO, 'case': c})
         ctx.count('two-compilers', len(two_sel), ())
     ctx.rule.append('two-compilers: the target and another target each get a Compiler instance before either '
-                    'compiles; three interleavings of compile/assemble of the two; all targets in thorough, every 2nd in quick')
+                    'compiles; three interleavings of compile/assemble of the two; all targets in thorough, every 4th in quick')
 
     log('compile in a thread')
     # ---- compile in a thread
-    thread_sel = subset(1, 3)
+    thread_sel = subset(seed + 1, 6)
     cases = [{'t': pub(targets[ti]), 'ref': refs[ti]['digest']} for ti in thread_sel]
     slices['thread'] = (len(batch), len(batch) + len(cases))
     batch += [{'fn': 'threaded', 'case': c} for c in cases]
@@ -760,11 +783,11 @@ def main(tier, seed):
                     {'fn': 'detfn.threaded', 'hashseed': '0', 'cwd': vlib.REPO, 'case': c})
         ctx.count('thread', len(thread_sel), ())
     ctx.rule.append('thread: compile + bytes + str inside a threading.Thread, run in the main thread (all targets '
-                    'in thorough, a third in quick)')
+                    'in thorough, a sixth in quick)')
 
     log('wall clock: a second later (crossing a second boundary), and a really fresh interpreter')
     # ---- wall clock: a second later (crossing a second boundary), and a really fresh interpreter
-    nsl = 16 if tier == 'quick' else 160
+    nsl = 8 if tier == 'quick' else 160
     pick = sorted(ctx.rng.sample(range(NT), min(nsl, NT)))
     cases = [{'t': pub(targets[ti]), 'ref': refs[ti]['digest'], 'sleep': 1.1} for ti in pick]
     slices['later'] = (len(batch), len(batch) + len(cases))
@@ -776,7 +799,7 @@ def main(tier, seed):
             S.judge('later', 'wall-clock', ti, targets[ti], a,
                     {'fn': 'detfn.pristine', 'hashseed': '0', 'cwd': vlib.REPO, 'case': c})
         ctx.count('later', len(later_pick), ())
-    nfr = 8 if tier == 'quick' else 64
+    nfr = 4 if tier == 'quick' else 64
     pick = sorted(ctx.rng.sample(range(NT), min(nfr, NT))) if 'fresh' not in SKIP else []
 
     def one_fresh(ti):
@@ -905,10 +928,10 @@ def main(tier, seed):
 
     log('variant histories')
     if 'variants' not in SKIP:
-        variants_suite(ctx, tier)
+        variants_suite(ctx, tier, seed)
     log('dead code x literals x hash seeds')
     if 'deadcode' not in SKIP:
-        deadcode_suite(ctx, tier, rseed)
+        deadcode_suite(ctx, tier, rseed, seed)
 
     t = targets[len(targets) // 2]
     ctx.sample({'suite': 'reference', 'tag': t['tag'], 'digest': refs[len(targets) // 2]['digest'],
